@@ -10,6 +10,7 @@ import (
 
 	"google.golang.org/protobuf/proto"
 	"google.golang.org/protobuf/reflect/protoreflect"
+	"google.golang.org/protobuf/types/known/structpb"
 
 	"verif/internal/mon"
 	"verif/internal/vschema"
@@ -228,6 +229,9 @@ func outClass(md protoreflect.MessageDescriptor) string {
 	if md.FullName() == "google.api.HttpBody" {
 		return "httpbody"
 	}
+	if wktName(md) != "" {
+		return "well-known-type"
+	}
 	return "message"
 }
 
@@ -286,6 +290,11 @@ func execC04Once(e *env, c *Case, handler string) (o outcome) {
 		return
 	}
 	want := selected(reply, p.resp)
+	if wktName(want.ProtoReflect().Descriptor()) != "" && roundTrips(want) != nil {
+		// e.g. an unset google.protobuf.Value: the reference cannot encode it either
+		o.count("c04_no_claim_reference_cannot_encode_selected_reply")
+		return
+	}
 	e.rec.setReply(reply)
 	e.rec.setHdrMode(handler)
 	resp, calls := serve(e, c.Req)
@@ -548,6 +557,19 @@ func replyRules() (dynamic, real []RuleSpec) {
 	cfg := func(id, verb, tmpl, body, resp string, ann *annSpec) RuleSpec {
 		return RuleSpec{ID: id, In: "vf.Req", Out: "vf.Rsp", Verb: verb, Tmpl: tmpl, Body: body, Resp: resp, Via: "config", Ann: ann}
 	}
+	// replies that ARE well-known types with a JSON form of their own, and
+	// response_body selectors on such fields
+	for _, w := range []string{"Timestamp", "Duration", "FieldMask", "BoolValue", "Int32Value", "Int64Value", "UInt32Value", "UInt64Value", "FloatValue",
+		"DoubleValue", "StringValue", "BytesValue", "Struct", "Value", "ListValue", "Empty"} {
+		dynamic = append(dynamic, rule("c4:wkt-reply-"+w, "google.protobuf."+w, "GET", "/c4/w/"+strings.ToLower(w)+"/{a}", "", ""))
+	}
+	for _, f := range []string{"ts", "dur", "fm", "ws", "wl"} {
+		dynamic = append(dynamic, rule("c4:wkt-rb-req-"+f, "vf.Req", "GET", "/c4/wr/"+f+"/{a}", "", f))
+	}
+	for _, f := range []string{"timestamp", "duration", "field_mask", "bool_value_wrapper", "int32_value_wrapper", "uint64_value_wrapper", "float_value_wrapper",
+		"double_value_wrapper", "string_value_wrapper", "bytes_value_wrapper", "struct", "value", "list_value", "empty"} {
+		dynamic = append(dynamic, rule("c4:wkt-rb-complex-"+f, cx, "POST", "/c4/wc/"+f, "*", f))
+	}
 	// additional bindings whose response_body / body differ from the primary rule's
 	add := func(id, verb, tmpl, body, resp string, primary *annSpec, adds ...annSpec) RuleSpec {
 		return RuleSpec{ID: id, In: "vf.Req", Out: "vf.Rsp", Verb: verb, Tmpl: tmpl, Body: body, Resp: resp, Primary: primary, Adds: adds}
@@ -654,6 +676,31 @@ func randAccept(rng *rand.Rand, kind string) []string {
 
 // genReply generates a reply of type md that survives both codecs.
 func (g *gen) genReply(md protoreflect.MessageDescriptor) proto.Message {
+	if w := wktName(md); w != "" {
+		// a well-known type as the reply itself: default-valued and not
+		for tries := 0; tries < 20; tries++ {
+			m := vschema.NewMsg(md)
+			switch {
+			case g.rng.Intn(3) == 0:
+				// default-valued (all fields unset)
+			case urlWKT[w]:
+				fillWKT(m.ProtoReflect(), g.rng.Intn(12)-2, g.rng)
+			case w == "Struct":
+				x, _ := structpb.NewStruct(map[string]any{"k": 1.5, "s": randString(g.rng), "n": nil, "l": []any{true, "x"}})
+				m = x
+			case w == "Value":
+				m = []proto.Message{structpb.NewNumberValue(0), structpb.NewStringValue(""), structpb.NewBoolValue(false), structpb.NewNullValue(),
+					structpb.NewStringValue(randString(g.rng)), structpb.NewNumberValue(g.rng.NormFloat64())}[g.rng.Intn(6)]
+			case w == "ListValue":
+				x, _ := structpb.NewList([]any{1.0, "a", nil})
+				m = x
+			}
+			if roundTrips(m) == nil {
+				return m
+			}
+		}
+		return vschema.NewMsg(md)
+	}
 	if md.FullName() == "google.api.HttpBody" {
 		m := vschema.NewMsg(md)
 		r := m.ProtoReflect()
@@ -766,7 +813,7 @@ func (g *gen) c04Case(p *plan, kind, reqCT string, accept, acceptEnc []string) (
 		Reply: wireR, ReplyJSON: jsonOf(reply)}, nil
 }
 
-const ruleC04 = "unary rules returning vf.Req, larking.testpb.ComplexRequest (maps, Struct, Any, every scalar), vf.Rsp, google.api.HttpBody and real larking.testpb methods (GetShelf, GetBook, UpdateBook, GetMessageOne, Files.UploadDownload, WellKnown.Check); with and without response_body (top-level message fields incl. an HttpBody field; body '', '*' and <field>). The recording handler returns a planted reply (generator of C03: boundary / random values, empty, ~160 KiB, HttpBody with content types incl. parameters and arbitrary bytes up to 64 KiB). Requests: Content-Type absent / application/json / application/protobuf / application/octet-stream (optionally gzip bodies), Accept headers = a fixed table (single types, wildcards, q=0 exclusions, all-excluded, junk tokens, google.api.HttpBody, duplicated headers) x all request types, plus random headers (1-4 ranges, exact / type/* / */*, q in {absent,0,0.000,0.001,0.1,0.5,0.9,1,1.000}, OWS variants, junk elements, split over two header lines), Accept-Encoding values. Two further dimensions: (1) the handler touches the response metadata before returning (every 2nd case: grpc.SetHeader, grpc.SendHeader = headers sent early, SendHeader(nil), SetHeader+SendHeader, SetTrailer) - a failure that disappears with a plain handler is keyed handler=<mode>; (2) every rule also lives on a mux with two extra media types registered through larking.CodecOption (application/x-vf-json, application/x-vf-proto; magic-prefixed so the decoder can tell the named codec produced the body): there the registered universe has five types, request bodies / Content-Types and Accept headers name the extra types (fixed table of 10 headers x all six request types, the general fixed table with rotating request types, a third of the random headers). (3) a third mux REPLACES application/json and application/protobuf by the marked codecs, and a second plain mux is built after the option muxes: the plain muxes (built before and after) must answer in the built-in codecs, never carry a mark, and fall back for headers naming the extra types; (3b) the same tables on a mux with StatsOption + pass-through interceptors and on a mux whose FilesOption registry is a re-ordered second build of the descriptors while the handlers build replies on the first; (4a) rules with additional_bindings whose bindings differ from the primary rule in response_body and body (both the additional binding and the primary are exercised); (4) rules delivered through ServiceConfigOption (selector = method): on routes of their own and re-declaring the annotated route of the method with another body / response_body (the service configuration wins). Oracles: independent decode by the response Content-Type (protojson / proto.Unmarshal / the harness decoders of the extra codecs) and proto.Equal with the reply or its response_body field; HttpBody: body == data and Content-Type == content_type; Content-Encoding gzip must gunzip to the payload, absent / identity means the body is the payload; RFC 7231 5.3.2 evaluator (most specific range wins, q=0 excludes), applied only when the header parses under the evaluated grammar: if a registered type is admitted the response type must be admitted, if none is the response type must be the request's own (JSON when absent). distinct = (rule, response codec, request type, Accept class, admission verdict, response Content-Encoding). Stateful part: sequences of 16-40 requests on one mux against an asset-server handler that owns long-lived buffers (1 B - 40 KB) and long-lived reply messages and serves them repeatedly without copying (fresh HttpBody / vf.Rsp per call whose data / bytes field aliases the buffer; the same long-lived vf.Rsp whose response_body-selected HttpBody or vf.Req sub-message holds it), interleaved with other transcoded requests with request bodies and replies of 0 B - 60 KB in all codecs; every reply is checked against an expectation built from an independent pristine copy, after every step every handler-owned buffer must still equal its pristine copy (canary) and at the end every long-lived reply message must equal a freshly built one; distinct there = (asset shape, codec) of assets served again intact after other traffic"
+const ruleC04 = "unary rules returning vf.Req, larking.testpb.ComplexRequest (maps, Struct, Any, every scalar), vf.Rsp, google.api.HttpBody and real larking.testpb methods (GetShelf, GetBook, UpdateBook, GetMessageOne, Files.UploadDownload, WellKnown.Check); with and without response_body (top-level message fields incl. an HttpBody field; body '', '*' and <field>). The recording handler returns a planted reply (generator of C03: boundary / random values, empty, ~160 KiB, HttpBody with content types incl. parameters and arbitrary bytes up to 64 KiB). Requests: Content-Type absent / application/json / application/protobuf / application/octet-stream (optionally gzip bodies), Accept headers = a fixed table (single types, wildcards, q=0 exclusions, all-excluded, junk tokens, google.api.HttpBody, duplicated headers) x all request types, plus random headers (1-4 ranges, exact / type/* / */*, q in {absent,0,0.000,0.001,0.1,0.5,0.9,1,1.000}, OWS variants, junk elements, split over two header lines), Accept-Encoding values. Two further dimensions: (1) the handler touches the response metadata before returning (every 2nd case: grpc.SetHeader, grpc.SendHeader = headers sent early, SendHeader(nil), SetHeader+SendHeader, SetTrailer) - a failure that disappears with a plain handler is keyed handler=<mode>; (2) every rule also lives on a mux with two extra media types registered through larking.CodecOption (application/x-vf-json, application/x-vf-proto; magic-prefixed so the decoder can tell the named codec produced the body): there the registered universe has five types, request bodies / Content-Types and Accept headers name the extra types (fixed table of 10 headers x all six request types, the general fixed table with rotating request types, a third of the random headers). (3) a third mux REPLACES application/json and application/protobuf by the marked codecs, and a second plain mux is built after the option muxes: the plain muxes (built before and after) must answer in the built-in codecs, never carry a mark, and fall back for headers naming the extra types; (3b) the same tables on a mux with StatsOption + pass-through interceptors and on a mux whose FilesOption registry is a re-ordered second build of the descriptors while the handlers build replies on the first; (3c) replies that ARE well-known types with a JSON form of their own (Timestamp, Duration, FieldMask, the nine wrappers, Struct, Value, ListValue, Empty), default-valued and not, as the method's reply and as the response_body-selected field of vf.Req / ComplexRequest; (4a) rules with additional_bindings whose bindings differ from the primary rule in response_body and body (both the additional binding and the primary are exercised); (4) rules delivered through ServiceConfigOption (selector = method): on routes of their own and re-declaring the annotated route of the method with another body / response_body (the service configuration wins). Oracles: independent decode by the response Content-Type (protojson / proto.Unmarshal / the harness decoders of the extra codecs) and proto.Equal with the reply or its response_body field; HttpBody: body == data and Content-Type == content_type; Content-Encoding gzip must gunzip to the payload, absent / identity means the body is the payload; RFC 7231 5.3.2 evaluator (most specific range wins, q=0 excludes), applied only when the header parses under the evaluated grammar: if a registered type is admitted the response type must be admitted, if none is the response type must be the request's own (JSON when absent). distinct = (rule, response codec, request type, Accept class, admission verdict, response Content-Encoding). Stateful part: sequences of 16-40 requests on one mux against an asset-server handler that owns long-lived buffers (1 B - 40 KB) and long-lived reply messages and serves them repeatedly without copying (fresh HttpBody / vf.Rsp per call whose data / bytes field aliases the buffer; the same long-lived vf.Rsp whose response_body-selected HttpBody or vf.Req sub-message holds it), interleaved with other transcoded requests with request bodies and replies of 0 B - 60 KB in all codecs; every reply is checked against an expectation built from an independent pristine copy, after every step every handler-owned buffer must still equal its pristine copy (canary) and at the end every long-lived reply message must equal a freshly built one; distinct there = (asset shape, codec) of assets served again intact after other traffic"
 
 // RunC04 is the unary-response-fidelity check.
 func RunC04(r *mon.Run) {
@@ -822,9 +869,17 @@ func RunC04(r *mon.Run) {
 		apply(r, c, execCase(x.e, c))
 	}
 	// fixed table x request types x rules
+	thinWKT := func(x rp, k int) bool {
+		// the many well-known-type reply rules share the negotiation code
+		// paths of the others: a slice of the tables is enough
+		return strings.HasPrefix(x.p.rule.ID, "c4:wkt-") && k%r.Pick(7, 2) != 0
+	}
 	for _, x := range plans {
 		for i, acc := range fixedAccepts {
 			for j, ct := range requestTypes {
+				if thinWKT(x, i+j) {
+					continue
+				}
 				do(x, ct, acc, acceptEncodingPool[(i+j)%len(acceptEncodingPool)])
 			}
 		}
@@ -845,7 +900,7 @@ func RunC04(r *mon.Run) {
 				continue
 			}
 			for i, acc := range append(append([][]string(nil), fixedAccepts...), customAccepts...) {
-				if !r.Thorough() && (i+xi)%2 == 1 {
+				if (!r.Thorough() && (i+xi)%3 != 0) || thinWKT(x, i+xi) {
 					continue
 				}
 				do(x, requestTypes[(i+xi)%len(requestTypes)], acc, acceptEncodingPool[(i+xi)%len(acceptEncodingPool)])
@@ -855,6 +910,9 @@ func RunC04(r *mon.Run) {
 	customTypes := append(append([]string(nil), requestTypes...), ctAltJSON, ctAltProto)
 	for xi, x := range plansOf[muxCustom] {
 		for i, acc := range append(append([][]string(nil), customAccepts...), fixedAccepts...) {
+			if thinWKT(x, i+xi) {
+				continue
+			}
 			if i < len(customAccepts) {
 				for _, ct := range customTypes {
 					do(x, ct, acc, acceptEncodingPool[(i+xi)%len(acceptEncodingPool)])
